@@ -554,32 +554,39 @@ def s8(ctx, rep, clause="S8"):
             "self.results.append on every normal path, outside any loop",
             "a path through on_trial_result appends no row (or several)", witness=cfg.describe_path(p) if p else None)
     rowvar = argn(call, 0).id if call.args and isinstance(argn(call, 0), ast.Name) else None
-    param = [p_ for p_ in f.params if p_ == "result"]
-    # the row is a copy of the parameter, made before the first mutation
+    # the row is a copy of the delivered dict: no dict that may be the caller's own object (the `result` parameter as it came
+    # in, under whatever local name) is stored into, updated, or handed to a method of the callback; and what is appended is
+    # a copy of it
+    from ..engine import origins
     COPY = ("copy", "deepcopy", "dict")
-    cp = {n.id for n in cfg.nodes if n.kind == "stmt" and isinstance(n.ast, ast.Assign) and isinstance(n.ast.targets[0], ast.Name)
-          and n.ast.targets[0].id == rowvar and isinstance(n.ast.value, ast.Call) and fn_name(n.ast.value) in COPY
-          and any(isinstance(x, ast.Name) and x.id == "result" for x in ast.walk(n.ast.value))}
-    mut = set()
+    PARAM = "param:result"
+    if "result" not in f.params:
+        raise AnchorError("StoreResultsCallback.on_trial_result: parameter `result` not found")
+    mut = []
     for n in cfg.nodes:
         if n.kind != "stmt":
             continue
         st = n.ast
         if isinstance(st, (ast.Assign, ast.AugAssign)):
             tg = st.targets if isinstance(st, ast.Assign) else [st.target]
-            if any(isinstance(t, ast.Subscript) and isinstance(t.value, ast.Name) and t.value.id == "result" for t in tg):
-                mut.add(n.id)
+            mut += [(n.id, t.value.id) for t in tg if isinstance(t, ast.Subscript) and isinstance(t.value, ast.Name)]
         for x in cfg.node_walk(n.id):
             if isinstance(x, ast.Call) and isinstance(x.func, ast.Attribute) and isinstance(x.func.value, ast.Name) \
-                    and x.func.value.id == "result" and x.func.attr in ("update", "pop", "setdefault", "clear"):
-                mut.add(n.id)
+                    and x.func.attr in ("update", "pop", "setdefault", "clear", "popitem"):
+                mut.append((n.id, x.func.value.id))
             if isinstance(x, ast.Call) and isinstance(x.func, ast.Attribute) and isinstance(x.func.value, ast.Name) \
-                    and x.func.value.id == "self" and any(isinstance(a, ast.Name) and a.id == "result" for a in x.args):
-                mut.add(n.id)
-    viol = [m for m in mut if cfg.path(cfg.entry, m, deleted=cp) is not None]
-    rep.put(rowvar is not None and bool(cp) and not viol, clause, "taint",
-            "StoreResultsCallback.on_trial_result: row is a copy made before the first store", f, None,
-            f"{len(mut)} stores into the row, all after the copy",
+                    and x.func.value.id == "self":
+                mut += [(n.id, a_.id) for a_ in x.args if isinstance(a_, ast.Name)]
+    viol = [(m, nm) for m, nm in mut if PARAM in origins(f, nm, m)]
+    row_or = origins(f, rowvar, nid) if rowvar is not None else []
+    is_copy = lambda e: isinstance(e, ast.Call) and fn_name(e) in COPY and any(
+        isinstance(y, ast.Name) and PARAM in origins(f, y.id, nid_) for nid_ in [n_.id for n_ in cfg.nodes if any(z is e for z in cfg.node_walk(n_.id))][:1]
+        for y in ast.walk(e))
+    copied = bool(row_or) and all(not isinstance(o, (str, tuple)) and is_copy(o) for o in row_or)
+    rep.put(rowvar is not None and copied and not viol, clause, "taint",
+            "StoreResultsCallback.on_trial_result: row is a copy made before the first store", f,
+            cfg.nodes[viol[0][0]].ast if viol else None,
+            f"{len(mut)} stores / hand-overs, none of them on the delivered dict itself",
             "the dict delivered to the scheduler is mutated (decision/status/config columns written into the caller's result)")
     # self.results is only appended to
     ws = [(g, n, k) for g, n, k in ctx.writers("results", classes=["StoreResultsCallback"])]
